@@ -19,7 +19,7 @@ noncomputable def lkPsi0 (p0 : Int) (θ : ℝ) : ℝ := (p0 : ℝ) * π / 2 ^ 30
 
 theorem lkZ_norm (F : Int) : ‖lkZ F‖ = 1 := Complex.norm_exp_ofReal_mul_I _
 
-theorem cos_pi_div_five_le : cos (π / 5) ≤ 0.82 := by
+theorem lk_cos_pi_div_five_le : cos (π / 5) ≤ 0.82 := by
   have h0 := pi_gt_d2; have h1 := pi_lt_d2
   have hx0 : 0.628 ≤ π / 5 := by linarith
   have hx1 : π / 5 ≤ 0.63 := by linarith
@@ -45,7 +45,7 @@ theorem lkZ_sub_one (F : Int) (hF0 : 214748365 ≤ F) (hF1 : F ≤ 1932735283) :
     rw [div_le_iff₀ (by norm_num)]
     nlinarith
   have hcos : cos (lkOmega F) ≤ 0.82 := by
-    refine le_trans ?_ cos_pi_div_five_le
+    refine le_trans ?_ lk_cos_pi_div_five_le
     by_cases hc : lkOmega F ≤ π
     · exact cos_le_cos_of_nonneg_of_le_pi (by linarith) hc hΩ0
     · rw [← cos_two_pi_sub (lkOmega F)]
